@@ -56,6 +56,29 @@ inductive Verb where
   | noAnswer
 deriving DecidableEq, Repr
 
+/-- the client requests the harness sends (what the command socket carries) -/
+inductive ClientVerb where
+  | add | bad | query | status | metrics | hardStop | softStop
+  | load (k : Nat) | loadMissing | list
+  /-- `request_type: None` -/
+  | none
+  | launchWorker | returnListenSockets
+deriving DecidableEq, Repr
+
+/-- how `handle_client_request` treats each request; `answers` = the three
+    requests the main process does not implement are answered with a failure
+    (`Consts.hubAnswersUnsupportedVerbs`; before the repair: never answered, F21) -/
+def ClientVerb.classify (answers : Bool) : ClientVerb → Verb
+  | .add => .worker
+  | .bad => .workerBad
+  | .query | .status | .metrics => .query
+  | .hardStop => .hardStop
+  | .softStop => .softStop
+  | .load k => .loadState k
+  | .loadMissing => .loadMissing
+  | .list => .localOk
+  | .none | .launchWorker | .returnListenSockets => if answers then .workerBad else .noAnswer
+
 /-- a worker-request id `"{verb}-{worker}-{task}-{sub}"` -/
 structure Rid where
   worker : Nat
